@@ -1,7 +1,7 @@
 """E2 runner: Kani harnesses (out-of-tree crate /verif/kani over /repo's current sources)."""
 import json, os, re, shutil, subprocess, time
 
-VERIF = "/verif"
+VERIF = os.path.dirname(os.path.dirname(os.path.abspath(__file__)))
 BUILD = os.path.join(VERIF, ".build")
 KANI = os.path.join(VERIF, "kani")
 
